@@ -21,6 +21,7 @@ MC_UserParams == << [g |-> gG1, p |-> [n |-> nA, d |-> <<100>>, l |-> 0, sets |-
 MC_LockNames == {}
 MC_CallerIds == {}
 MC_Files == <<>>
+MC_AliasGroups == {}
 Dump == ~Sampled(Len(hist)) \/ PrintT(ToJson([path |-> hist, op |-> lastOp', out |-> lastOut', res |-> lastRes',
                        post |-> [hdr |-> AbsHdr(obj'.hdr), frm |-> obj'.frm]]))
 =========================================================================
